@@ -45,7 +45,7 @@ def nonwriting_call(fn, n):
         fl = arg(n, 1) if is_call(n, "ext2fs_open") else arg(n, 2)
         c = T.const(fl)
         return c is not None and (c & 1) == 0        # without EXT2_FLAG_RW
-    return False
+    return effects.nondevice_call(fn, n)             # writes to the undo file are not device writes
 
 
 def run(world, rep, tier, only=None):
